@@ -269,6 +269,15 @@ fn c_style_comments_parser(
 }
 
 /// C-style comments parser for the separate line and block comment queries.
+/// Some grammars deliver "comment" nodes inside string literals (Swift) or quoted attribute
+/// values (HTML), where comment syntax is plain text.
+fn is_inside_literal_text(node: &Node) -> bool {
+    node.parent().is_some_and(|parent| {
+        let kind = parent.kind();
+        kind.ends_with("string_literal") || kind == "quoted_attribute_value"
+    })
+}
+
 fn c_style_line_and_block_comments_parser(
     language: &Language,
     line_comment_node_kind: &'static str,
@@ -278,7 +287,9 @@ fn c_style_line_and_block_comments_parser(
         language,
         Box::new(move |node, source_code| {
             let kind = node.kind();
-            if kind == line_comment_node_kind {
+            if is_inside_literal_text(node) {
+                None
+            } else if kind == line_comment_node_kind {
                 Some(source_code[node.byte_range()].replacen("//", "  ", 1))
             } else if kind == block_comment_node_kind {
                 Some(c_style_multiline_comment_processor(
@@ -323,7 +334,7 @@ fn xml_style_comments_parser(
     TreeSitterCommentsParser::new(
         language,
         Box::new(move |node, source_code| {
-            if node.kind() == comment_node_kind {
+            if node.kind() == comment_node_kind && !is_inside_literal_text(node) {
                 let comment = &source_code[node.byte_range()];
                 // A degenerate comment node (e.g. produced by error recovery) may lack a delimiter.
                 let open_idx = comment.find("<!--")?;
